@@ -61,40 +61,41 @@ void FullHmmTransitionMatrix::setTransitionProbabilities(const Matrix<double>& m
 }
 
 
+void FullHmmTransitionMatrix::update_() const
+{
+  // pij_ and eqFreq_ share the upToDate_ flag: they are always refreshed together.
+  size_t salph = getNumberOfStates();
+
+  for (size_t i = 0; i < vSimplex_.size(); ++i)
+  {
+    for (size_t j = 0; j < vSimplex_[i].dimension(); ++j)
+    {
+      pij_(i, j) = vSimplex_[i].prob(j);
+    }
+  }
+
+  MatrixTools::pow(pij_, 256, tmpmat_);
+
+  for (size_t i = 0; i < salph; ++i)
+  {
+    eqFreq_[i] = tmpmat_(0, i);
+  }
+
+  upToDate_ = true;
+}
+
 const Matrix<double>& FullHmmTransitionMatrix::getPij() const
 {
   if (!upToDate_)
-  {
-    for (size_t i = 0; i < vSimplex_.size(); ++i)
-    {
-      for (size_t j = 0; j < vSimplex_[i].dimension(); ++j)
-      {
-        pij_(i, j) = vSimplex_[i].prob(j);
-      }
-    }
-    upToDate_ = true;
-  }
+    update_();
 
   return pij_;
 }
 
 const std::vector<double>& FullHmmTransitionMatrix::getEquilibriumFrequencies() const
 {
-  size_t salph = getNumberOfStates();
-
   if (!upToDate_)
-  {
-    pij_ = getPij();
-
-    MatrixTools::pow(pij_, 256, tmpmat_);
-
-    for (size_t i = 0; i < salph; ++i)
-    {
-      eqFreq_[i] = tmpmat_(0, i);
-    }
-
-    upToDate_ = true;
-  }
+    update_();
 
   return eqFreq_;
 }
